@@ -42,6 +42,9 @@ def run(ctx) -> None:
     ctx.rule("R3", "only the matched span of a matched line is replaced")
     ctx.rule("R4", "who may write: write sites == whitelist; written path == configured path that was read")
     ctx.rule("R5", "prerequisite: replacements never overlap - matches are enumerated completely and an overlapping later match is suppressed (C03/R3), spans applied right to left (C03/R1)")
+    ctx.rule("R6", "prerequisite: 'the character spans matched by configured patterns' are occurrences of the configured text - literal pattern text matches only itself (C07/R1)")
+    from sa.report import run_prerequisite as _rp6
+    _rp6(ctx, "C07", ("R1",), "R6")
     from sa.report import run_prerequisite
     run_prerequisite(ctx, "C03", ("R1", "R3"), "R5")
     from checks.c02 import part_language_band_rule, V2_PART_REF, V2_PART_REF_MAX
@@ -141,6 +144,12 @@ def run(ctx) -> None:
         fn = prog.function(fq)
         ctx.visit(fq)
         p_content = fn.params[2]
+        rebinds = [x for x in ast.walk(fn.node) if isinstance(x, ast.Name) and x.id == p_content and isinstance(x.ctx, ast.Store)]
+        ctx.check("R2", not rebinds, f"{fq}: the content that was read is split as it is (`{p_content}` is not re-bound)",
+                  f"{fq}: the file content is transformed before it is split into lines",
+                  f"`{p_content}` is assigned again at L{rebinds[0].lineno if rebinds else 0}: old and new lines are both made from the transformed text, so the diff shows nothing, but the "
+                  f"whole file is written back transformed (normalised / re-encoded / stripped) - every byte outside the matches can change", loc=fn.loc(rebinds[0]) if rebinds else fn.loc(),
+                  witness={"content": "cafe\u0301 (decomposed) outside the match"})
         seps = [(st, v) for st, v in shapes.local_defs(fn, "line_sep")]
         sep_calls = [c for c in ast.walk(fn.node) if isinstance(c, ast.Call) and unparse(c.func).endswith("detect_line_sep")]
         ctx.require(len(sep_calls) == 1, f"{fq}: expected one detect_line_sep call")
